@@ -1,32 +1,83 @@
 //! ad-hoc probes (not registered in any check)
 use crate::args::Args;
-use crate::mon::{hub, SchedCtl};
+use crate::crashimg::{self, Recipe};
+use crate::engines::crash::recover_image;
+use crate::mon::hub;
 use crate::report::Report;
 use crate::storeutil::{self, Cfg};
+use crate::values::{self, Tag};
+use std::sync::atomic::{AtomicU64, Ordering};
 use std::sync::Arc;
 
+/// Two flush workers split one retired run: the first allocates its head part and is delayed before it
+/// reaches the device, the second allocates the part behind it, writes it, clears the journal and
+/// retires the overwritten generation. Crash then.
 pub fn run(_args: &Args) -> Report {
     let report = Report::new("scratch", "ad-hoc");
     let dir = storeutil::scratch_dir("scratch");
-    let path = format!("{dir}/d.feox");
-    let cfg = Cfg::disk(16 + 64);
-    let st = Arc::new(storeutil::open(&cfg, Some(&path)).unwrap());
-    st.insert(b"other", b"0123456789012345678901234567").unwrap();
-    st.flush().unwrap();
-    st.insert(b"k", b"generation-1").unwrap();
-    let ctl = Arc::new(SchedCtl::new(1, 0, 0).target("update.before_enqueue", 1000, 600_000));
-    hub().set_sched(Some(ctl));
-    let st2 = st.clone();
-    let t = std::thread::spawn(move || {
-        st2.insert(b"k", b"generation-2").unwrap();
-    });
-    std::thread::sleep(std::time::Duration::from_millis(150));
-    println!("flush -> {:?}", st.flush());
-    std::fs::copy(&path, format!("{dir}/copy.feox")).unwrap();
-    t.join().unwrap();
-    hub().set_sched(None);
-    let c = storeutil::open(&cfg, Some(&format!("{dir}/copy.feox"))).unwrap();
-    println!("after crash right after the acknowledged flush: get(k) = {:?}", c.get(b"k").map(|v| String::from_utf8_lossy(&v).to_string()));
-    println!("live store get(k) = {:?}", st.get(b"k").map(|v| String::from_utf8_lossy(&v).to_string()));
+    let path = format!("{dir}/split.feox");
+    let mut cfg = Cfg::disk(16 + 256);
+    cfg.cpus = 4;
+    cfg.cache = false;
+    storeutil::ensure_device(&cfg, &path);
+    let mon = hub().watch(&path);
+    let base = vec![0u8; (cfg.blocks as usize) * 4096];
+    let store = Arc::new(storeutil::open(&cfg, Some(&path)).unwrap());
+    // which shard does a key land in?
+    let shard_of = |k: &[u8]| -> usize {
+        store.insert(k, b"probe-probe-probe-probe-probe").unwrap();
+        let p = store.verif_pending().unwrap();
+        let s = p.shard_queued.iter().position(|q| *q > 0).unwrap();
+        store.flush().unwrap();
+        s
+    };
+    let mut by_shard: Vec<Vec<Vec<u8>>> = vec![Vec::new(); 2];
+    for i in 0..40 {
+        let k = format!("key-{i:02}").into_bytes();
+        let s = shard_of(&k);
+        by_shard[s].push(k);
+    }
+    println!("shards: {} / {} keys", by_shard[0].len(), by_shard[1].len());
+    // a 6-block victim at the lowest free address, then retire it: markers "remaining 6..1"
+    let victim = values::make(Tag { key_id: 1, writer: 0, seq: 1 }, 5 * 4096 + 100);
+    store.insert(b"victim", &victim).unwrap();
+    store.flush().unwrap();
+    let vsec = store.verif_entry(b"victim").unwrap().sector;
+    store.delete(b"victim").unwrap();
+    store.flush().unwrap();
+    println!("victim extent was at block {vsec} (6 blocks), now retired and free");
+    let (ka, kb) = (by_shard[0][0].clone(), by_shard[1][0].clone());
+    // both keys are durable and acknowledged (small values elsewhere); now both are updated
+    let arrivals = Arc::new(AtomicU64::new(0));
+    {
+        let arrivals = arrivals.clone();
+        hub().set_action(Some(Arc::new(move |point: &'static str| {
+            if point == "flush.allocated" && arrivals.fetch_add(1, Ordering::SeqCst) == 0 {
+                std::thread::sleep(std::time::Duration::from_millis(1500));
+            }
+        })));
+    }
+    store.insert(&ka, &values::make(Tag { key_id: 2, writer: 0, seq: 2 }, 4096 + 500)).unwrap();
+    store.insert(&kb, &values::make(Tag { key_id: 3, writer: 0, seq: 2 }, 600)).unwrap();
+    let s2 = store.clone();
+    let flusher = std::thread::spawn(move || s2.flush());
+    std::thread::sleep(std::time::Duration::from_millis(900));
+    // crash now: the device holds exactly what was fsynced so far
+    let events = mon.events();
+    let durable = crashimg::build(&base, &events, &Recipe { cut: events.len(), keep: vec![], tear: None });
+    println!("{}", crashimg::digest(&events, events.len().saturating_sub(14), events.len()).join("\n"));
+    for (name, k) in [("A (delayed worker)", &ka), ("B", &kb)] {
+        println!("live store: {name} {:?} sector {:?}", String::from_utf8_lossy(k), store.verif_entry(k).map(|e| e.sector));
+    }
+    match recover_image(&durable, &format!("{dir}/img.feox"), 3, false, false) {
+        Ok((rec, _)) => {
+            for (name, k) in [("A", &ka), ("B", &kb)] {
+                println!("after the crash: key {name} {:?} -> {:?}", String::from_utf8_lossy(k), rec.dump.get(k.as_slice()).map(|d| d.value.as_ref().map(|v| values::describe(v)).map_err(|e| e.clone())));
+            }
+        }
+        Err(e) => println!("recovery failed: {e}"),
+    }
+    hub().set_action(None);
+    let _ = flusher.join();
     report
 }
